@@ -88,7 +88,8 @@ def impl_view(o):
         written = any(k.startswith(n + '.') and k[len(n) + 1:] in ('weight', 'bias') for k in ob['sd_changed'])
         hasbn = bool(ob.get('user_has_bn_attr', {}).get(n, False))
         code = {'shared': 0, 'replaced': 1, 'absent': 2}.get(ob['identity'].get(n), None)
-        foldflag = ob.get('pit_layers', {}).get(n, {}).get('fold_flag')
+        L = ob.get('pit_layers', {}).get(n, {})
+        foldflag = L.get('fold_flag') if L.get('has_bn') else None      # the flag matters (BatchNorm once) only where a BatchNorm was fused
         per.append((ob['user_flags_after'].get(n), written, hasbn, code, foldflag))
     return (ob['wrapper_training'], ob['seed_training'], ob['user_root_training_after'], per)
 
